@@ -51,7 +51,7 @@ NETWORKS = [
 def bounds(tier):
     if tier == "quick":
         return dict(networks="6 fixed networks (ring, chain with 2 outputs, hyper/batch index, vector, trace leaf, scalar input)", K=2, initial_trees=["greedy", "caterpillar"],
-                    menu="21 operations (see vlib/history.op_menu)", caps="<=8 states carried to level 2, <=25 paths per (state, op) (first paths in DFS order; the rest is reported as budget)")
+                    menu="21 operations (see vlib/history.op_menu)", caps="<=16 states carried to level 2 (round-robin over the kinds of the last operations), <=25 paths per (state, op) (first paths in DFS order; the rest is reported as budget)")
     return dict(networks="10 fixed networks N in 4..5", K=3, initial_trees=["greedy", "caterpillar"], menu="31 operations", caps="<=80 states per level, <=400 paths per (state, op)")
 
 
@@ -159,7 +159,7 @@ def run_item(item, rec):
     K = 2 if tier == "quick" else 3
     n_states = history.explore_histories(
         rec, initial_states(t0, labels, size), menu, K, check, env,
-        max_states_per_level=int(__import__("os").environ.get("VERIF_HIST_STATES", 8 if tier == "quick" else 80)),
+        max_states_per_level=int(__import__("os").environ.get("VERIF_HIST_STATES", 16 if tier == "quick" else 80)),
         max_paths_per_op=(25 if tier == "quick" else 400),
         deadline_per_op=(4.0 if tier == "quick" else 25.0),
     )
